@@ -22,17 +22,28 @@ theorem get_mod_concat {α} (l : List α) (s : Nat) (f : α → α) (a : α) :
   have : l.length = (l.modify s f).length := by simp
   rw [this, List.getElem?_concat_length]
 
+theorem get_mod_left {α} (l : List α) (s : Nat) (f : α → α) (a x : α) (h : l[s]? = some x) :
+    (l.modify s f ++ [a])[s]? = some (f x) := by
+  have hl : s < l.length := by
+    rcases Nat.lt_or_ge s l.length with hlt | hge
+    · exact hlt
+    · rw [List.getElem?_eq_none hge] at h; cases h
+  rw [List.getElem?_append_left (by simpa using hl), List.getElem?_modify, h]; simp
+
+/-- (the subscriber `s` is alive: `new_observer`'s re-check of the subscriber takes the live path) -/
 theorem stage_run (K : Kernel Data) (src : Obsv) (s : Nat) (w : World) (hh : w.held = [])
+    (x : Obs) (hx : w.obs[s]? = some x) (hsub : x.isSub = true)
     (fuel : Nat) (st : List Prog) :
-    run (fuel + 11) (stdOp K src s :: st) w = run fuel (src w.obs.length :: st) (stageW K s w) := by
+    run (fuel + 12) (stdOp K src s :: st) w = run fuel (src w.obs.length :: st) (stageW K s w) := by
   obtain ⟨obs, slots, cells, obsvs, users, held, trace, status⟩ := w
-  simp only at hh
+  simp only at hh hx
   subst hh
+  have hsub' : (x.next.isSome && x.error.isSome && x.complete.isSome) = true := hsub
   simp only [stdOp, run, sctlNew, Sctl.newObserver, Obsv.sub, List.getElem?_concat_length,
     World.conflicts, List.any_nil, World.setObs, Bool.false_eq_true, ↓reduceIte, Bool.and_false,
     List.append_assoc, List.cons_append, List.nil_append, List.length_append, List.length_cons, List.length_nil,
     get3_0, get3_1, set3_0, set3_1, Option.getD_some, Data.toInt, Int.toNat_zero,
-    Obs.isSub, Option.isSome_some, Bool.and_self, Nat.zero_add, Nat.reduceAdd, List.length_modify, stageW, get_mod_concat]
+    Obs.isSub, Option.isSome_some, Bool.and_self, Nat.zero_add, Nat.reduceAdd, List.length_modify, stageW, get_mod_concat, get_mod_left _ _ _ _ _ hx, hsub']
   rfl
 
 /-- `j` stages of the chain have been built and nothing has been delivered yet -/
@@ -100,8 +111,9 @@ theorem stage_setup {ly : Lay} {j : Nat} {w : World} {Q : World → Prop} (src :
     (hk : ∀ w', Built ly (j + 1) w' → WP (src (ly.L + (j + 1))) w' Q) :
     WP (stdOp (ly.ks j).kernel src (ly.L + j)) w Q := by
   obtain ⟨n, w', hQ, hr⟩ := hk _ (built_step hb)
-  refine ⟨n + 11, w', hQ, fun fuel st => ?_⟩
-  rw [← Nat.add_assoc, stage_run _ _ _ _ hb.rep.held]
+  refine ⟨n + 12, w', hQ, fun fuel st => ?_⟩
+  rw [← Nat.add_assoc, stage_run _ _ _ _ hb.rep.held _ (hb.rep.obs j (Nat.le_refl _))
+    (by rw [obsAt_isSub]; rfl)]
   have : w.obs.length = ly.L + (j + 1) := by have := hb.lobs; omega
   rw [this]
   exact hr fuel st
